@@ -285,3 +285,43 @@ Definition check_case (c : case) : bool :=
       | _, _ => false
       end
   end.
+
+(* ------------------------------------------------------------------ specification-level definitions
+   (used only in theorem statements; not part of the transcription) *)
+Definition csub (x y : GZ) : GZ := cadd x (cneg y).
+
+(* wire-wise product of two full words (one letter per wire): phases add, letters multiply *)
+Fixpoint fmul (l1 l2 : list P1) : Z * list P1 :=
+  match l1, l2 with
+  | p :: r1, q :: r2 => let kl := fmul r1 r2 in (fst (mul1 p q) + fst kl, snd (mul1 p q) :: snd kl)
+  | _, _ => (0, [])
+  end.
+
+Definition keys (w : word) : list Z := map fst w.
+
+(* canonical words: strictly increasing wire codes, no identity letters *)
+Definition lb (i : Z) (w : word) : Prop := match w with [] => True | (j, _) :: _ => i < j end.
+Fixpoint wf (w : word) : Prop :=
+  match w with [] => True | (i, p) :: r => p <> PI /\ lb i r /\ wf r end.
+
+(* the wire order contains the wires of the word *)
+Definition covered (order : list Z) (w : word) : Prop := forall i, In i (keys w) -> In i order.
+
+(* linear functional of a sentence: sum of coefficient * h(word) *)
+Fixpoint lin (h : word -> GZ) (s : sentence) : GZ :=
+  match s with [] => c0 | (w, x) :: r => cadd (cmul x (h w)) (lin h r) end.
+
+(* the bilinear form every product of sentences must realise *)
+Definition bil (h : word -> GZ) (a b : sentence) : GZ :=
+  lin (fun w1 => lin (fun w2 => cmul (iph (fst (wmul w1 w2))) (h (snd (wmul w1 w2)))) b) a.
+
+Definition delta (u w : word) : GZ := if weqb w u then c1 else c0.
+
+(* wires where both words act and with different letters *)
+Definition differ (p q : P1) : bool :=
+  match p, q with PI, _ | _, PI => false | _, _ => negb (p1_eqb p q) end.
+Definition overlap (a b : word) : Z :=
+  Z.of_nat (length (filter (fun i => differ (lookup a i) (lookup b i)) (nodup Z.eq_dec (keys a ++ keys b)))).
+
+Definition sent_wf (order : list Z) (s : sentence) : Prop :=
+  forall w x, In (w, x) s -> wf w /\ covered order w.
